@@ -151,6 +151,11 @@ func (cli *Client) Start() error {
 
 // Stop stops the client event-loop.
 func (cli *Client) Stop() error {
+	if cli.eng.isShutdown() {
+		// Already stopped: the pollers are closed, their descriptor numbers may belong to somebody else by now.
+		return errorx.ErrEngineInShutdown
+	}
+
 	cli.eng.shutdown(nil)
 
 	cli.eng.eventHandler.OnShutdown(Engine{cli.eng})
